@@ -363,7 +363,8 @@ class Oracle(object):
         # deposits (C07 ledger): one per resume of the ingest stream
         if rec.name == 'ingest_data_stream':
             o = rec.loc.get('observation')
-            if o is not None and o.name in self.ob and o.status.value == 'RUNNING':
+            if o is not None and o.name in self.ob and o.status.value == 'RUNNING' \
+                    and not (rec.proc.triggered and not rec.proc.ok):
                 L = self.ob[o.name]
                 L['stream_resumes'] += 1
                 L['dep'] += self.v.obs[o.name]['rate']
@@ -443,10 +444,11 @@ class Oracle(object):
             self.viol('C07', 'hot_free_negative', hfree)
         if hfree > h.total_capacity + EPS:
             self.viol('C07', 'hot_free_above_capacity', hfree)
-        if cfree < -EPS:
-            self.viol('C07', 'cold_free_negative', cfree)
-        if cfree > cd.total_capacity + EPS:
-            self.viol('C07', 'cold_free_above_capacity', cfree)
+        # C07 speaks of the hot buffer only (cold: "back at full free capacity after the last workflow");
+        # cold-tier excursions are counted, not alarmed on (they occur when Buffer.run starts several
+        # hot->cold moves at once, inside the tiering region of the known finding)
+        if cfree < -EPS or cfree > cd.total_capacity + EPS:
+            self.probe('cold_free_out_of_range_events')
         hfin = h.observations['finished']
         if len(hfin) != len(self.prev_hfin):
             for o in hfin:
@@ -582,6 +584,7 @@ class Oracle(object):
         st = res.status
         completed = st == 'ok' and not self.paused_only()
         self._c05()
+        self._c07_overrate()
         self._c08()
         self._c03_c06()
         self._c15b()
@@ -589,10 +592,18 @@ class Oracle(object):
         if completed:
             self._c04()
             self._c09_end()
+            b = self.sim.buffer
+            if b.hot[0].current_capacity != b.hot[0].total_capacity or b.cold[0].current_capacity != b.cold[0].total_capacity:
+                self.viol('C07', 'buffers_not_empty_after_last_workflow', 'hot %s/%s cold %s/%s' % (
+                    b.hot[0].current_capacity, b.hot[0].total_capacity, b.cold[0].current_capacity, b.cold[0].total_capacity))
         if self.real_monitor:
             self._c12()
-            if completed:
-                self._c13()
+            self._c13(completed)
+        if not completed and res.status == 'exc' and not self.adv:
+            from .scenario import feasible
+            if feasible(self.sc):
+                # asked to run to completion, the simulation aborted instead: its tasks cannot all have executed
+                self.viol('C04', 'run_aborted', '%s in %s (%s): %s' % res.exc, site='%s@%s' % (res.exc[0], res.exc[1]))
         self._probes()
 
     def paused_only(self):
@@ -641,6 +652,26 @@ class Oracle(object):
                 res.bound, where, res.stuck), site=sig)
         elif res.status == 'exc':
             self.viol('C05', 'raised', '%s in %s (%s): %s' % res.exc, site='%s@%s' % (res.exc[0], res.exc[1]))
+
+    # ............................................................ C07 over-rate
+    def _c07_overrate(self):
+        over = [n for n, w in self.v.obs.items() if w['rate'] > self.v.hot_rate]
+        if not over:
+            return
+        res = self.res
+        started = [n for n in over if self.ob[n]['start']]
+        if not started:
+            return
+        self.probe('overrate_observation_started')
+        self.res.faults['F7:overrate'] += 1
+        if res.status == 'exc' and res.exc[0] == 'ValueError' and res.exc[1] == 'process_incoming_data_stream':
+            for n in started:
+                o = [x for x in self.sim.instrument.observations if x.name == n][0]
+                if o.total_data_size != 0 or self.ob[n]['dep'] != 0:
+                    self.viol('C07', 'rejected_ingest_changed_state', '%s deposited %s before the rejection' % (n, o.total_data_size))
+        elif res.status != 'budget':
+            self.viol('C07', 'overrate_ingest_accepted', '%s: rate %s above the limit %s was not rejected (run ended %s %s)' % (
+                started, [self.v.obs[n]['rate'] for n in started], self.v.hot_rate, res.status, res.exc))
 
     # ..................................................................... C04
     def _c04(self):
@@ -1085,7 +1116,10 @@ class Oracle(object):
                         break
 
     # ..................................................................... C13
-    def _c13(self):
+    def _c13(self, completed=True):
+        # On a run that did not complete, the monitor has collected everything up to the step before
+        # the last one; transitions older than that are checked, the rest ignored.
+        horizon = None if completed else self.env.now - 1
         ev = self.sim.monitor.events
         rows = []
         if len(ev):
@@ -1108,7 +1142,9 @@ class Oracle(object):
             for k, times in want.items():
                 g = got.get(k, [])
                 if len(times) != 1:
-                    continue        # life-cycle itself broken: C04/C08 report that
+                    continue        # life-cycle itself broken (or not reached yet): C04/C08 report that
+                if horizon is not None and times[0] >= horizon:
+                    continue
                 if len(g) != 1:
                     self.viol('C13', 'event_count', '%s %s: %d entries, expected 1 at t=%s' % (
                         n, '/'.join(k), len(g), times[0]), site='/'.join(k[1:]) + (':missing' if not g else ':dup'))
